@@ -74,6 +74,10 @@ TABLE = {
    groups=[("ScopeParse.v", ["parse_scopes_ok", "parse_names_ok"]),
            ("ScopeProofs.v", ["scopes_refine", "scope_prefixes_unique", "names_resolve", "unknown_prefix_rejected", "unknown_prefix_never_ok",
                               "duplicate_declaration_rejected", "push_ns_appends", "push_ns_limit", "ns_values_limit_is"])]),
+ "C10": dict(
+   intro="C10 -- every read operation on a parsed document is total: for every successfully parsed document\n   (valid UTF-8 input, limit fitting the u32 field), every node id below the node count and every argument,\n   each accessor, axis, element variant, iterator constructor, name lookup, text / tail, root_element,\n   get_node (any id) and text_pos_at (any offset) of the model's API returns Ok -- it reaches none of the\n   panic sites of the source (unwrap, expect, indexing, slicing) and its loops do not run out of fuel.",
+   imports=["From RX.Spec Require Import Tree.", "From RX.Proofs Require Import ApiTotal PositionProofs."],
+   groups=[("ApiTotal.v", ["api_total", "api_total_doc"]), ("PositionProofs.v", ["text_pos_total_valid"])]),
  "C11": dict(
    intro="C11 -- navigation and iterators agree with the tree: every parsed document is an arena (Arena' d t:\n   the pre-order encoding of a well-formed document tree, NavParse.v), and on every arena each link accessor, axis, element variant, text/tail, root_element\n   and iterator of the model's API is the corresponding function of t, and the double-ended iterators\n   implement the deque specification for every sequence of operations.",
    imports=["From RX.Spec Require Import Tree Deque.", "From RX.Proofs Require Import NavEnc NavLinks NavIter NavAxes NavElem NavParse."],
@@ -118,6 +122,10 @@ TABLE = {
            ("BorrowTokenizer.v", ["tokenizer_tokens_ok", "tokenizer_content_tokens_ok"], "Local Notation token := Tokenizer.token."),
            ("BorrowParse.v", ["token_preserves_borrows", "parse_borrows_ok", "static_only_xml"]),
            ("TextMerge.v", ["single_fragment_storage"])]),
+ "C19": dict(
+   intro="C19 -- the `positions` feature only adds API surface: the fields it removes (NodeData.range,\n   AttributeData.range / qname_len / eq_len) are write-only for the parser.  A builder that strips them after\n   every token produces exactly the stripped document and the same errors, for the tokenizer run and for the\n   whole parse (parse_np_correct).  Determinism itself holds of the model by construction (it is a function)\n   and is decided for the code by the feature-set / repetition correspondence.",
+   imports=["From RX.Proofs Require Import OptionsParam PositionsNonInterf."],
+   groups=[("PositionsNonInterf.v", ["token_strip", "parse_document_strip", "parse_strip_invariant", "parse_strip_errors", "parse_np_correct"])]),
  "C17": dict(
    intro="C17 -- node identity, equality, ordering: a node is the key (document address, id).",
    imports=["From RX.Proofs Require Import OrderProofs."],
